@@ -76,3 +76,44 @@ pub fn mp_tok(mp: Option<usize>) -> String {
         Some(k) => k.to_string(),
     }
 }
+
+/// scale every value of a series token list by 2^-s (exact in f64 and in the model)
+pub fn scale_down(xs: &[&str], s: u32) -> Vec<String> {
+    xs.iter()
+        .map(|t| {
+            if *t == "_" {
+                "_".to_string()
+            } else {
+                let (p, q) = match t.split_once('/') {
+                    Some((p, q)) => (p.to_string(), q.parse::<u64>().unwrap_or(1)),
+                    None => (t.to_string(), 1),
+                };
+                if p == "0" { "0".to_string() } else { format!("{}/{}", p, q << s) }
+            }
+        })
+        .collect()
+}
+
+/// for every `every`-th request line that carries `xs=` (and possibly `ys=`) append a copy whose
+/// series are scaled by 2^-s, s rotating over `shifts`: the same statistics at a scale where the
+/// variance is close to (but well above) the EPS floor, so that a mis-scaled or mis-combined
+/// guard is observable
+pub fn add_scaled(lines: &mut Vec<String>, every: usize, shifts: &[u32], keys: &[&str]) {
+    let n = lines.len();
+    let mut extra = vec![];
+    for i in (0..n).step_by(every.max(1)) {
+        let mut r = crate::proto::Req::parse(&lines[i]);
+        if !r.has("xs") || matches!(r.s("t"), "i32" | "i64" | "oi32") || r.s("t2").starts_with('i') || r.s("t2") == "oi32" {
+            continue;
+        }
+        let s = shifts[(i / every.max(1)) % shifts.len()];
+        for k in keys {
+            if r.has(k) {
+                let v: Vec<String> = scale_down(&r.list(k), s);
+                r.set(k, join(&v));
+            }
+        }
+        extra.push(r.line());
+    }
+    lines.extend(extra);
+}
